@@ -91,7 +91,12 @@ structure Triple where
   x : Nat
   g : Nat
   v : Nat
+  uid : Nat := 0      -- identity of the Python tuple object (assigned when the triplet is recorded)
   deriving Repr, DecidableEq
+
+def Triple.mk3 (x g v : Nat) : Triple := { x := x, g := g, v := v }
+/-- Python tuple equality `point_i == point_j` on triplets: component-wise identity -/
+def Triple.sameComponents (a b : Triple) : Bool := a.x == b.x && a.g == b.g && a.v == b.v
 
 structure FunRec where
   leaf : Option Nat
@@ -137,6 +142,7 @@ structure World where
   nC : Nat := 0
   nPsd : Nat := 0
   nPart : Nat := 0
+  nTrip : Nat := 0        -- not a PEPit counter: serial numbers standing for tuple identity
   pepCons : List Nat := []
   pepPsd : List Nat := []
   pepMetrics : List Nat := []
@@ -268,8 +274,10 @@ def FunRec.isLeaf (f : FunRec) : Bool := f.leaf.isSome || f.cls == .adjointStub
 def isEvaluated (f : Nat) (x : Nat) : M (Option Triple) := do
   let fr ← getF f; let px ← getP x
   let w ← get
+  -- stored points were pruned when added; the incoming dictionary is pruned before comparing
+  let pruned := Dict.prune px.d
   pure <| fr.pts.find? (fun t => match w.pts[t.x]? with
-    | some q => Dict.eqv q.d px.d
+    | some q => Dict.eqv q.d pruned
     | Option.none => false)
 
 def separate (f : Nat) (x : Nat) : M (List (Nat × Coef) × List (Nat × Coef) × List (Nat × Coef)) := do
@@ -291,6 +299,9 @@ def pruneInPlace (t : Triple) : M Unit := do
   set { w with pts := pts, exs := w.exs.setIfInBounds t.v { ev with d := Dict.prune ev.d } }
 
 def recordTriple (f : Nat) (t : Triple) : M Unit := do
+  let w ← get
+  let t := { t with uid := w.nTrip }
+  set { w with nTrip := w.nTrip + 1 }
   pruneInPlace t
   let pg ← getP t.g
   let fr ← getF f
@@ -305,12 +316,12 @@ def oracleLeaf (f : Nat) (x : Nat) : M (Nat × Nat) := do
     if fr.reuse then pure (t.g, t.v)
     else do
       let g ← newLeafP
-      recordTriple f ⟨x, g, t.v⟩
+      recordTriple f (Triple.mk3 x g t.v)
       pure (g, t.v)
   | Option.none => do
     let v ← newLeafE
     let g ← newLeafP
-    recordTriple f ⟨x, g, v⟩
+    recordTriple f (Triple.mk3 x g v)
     pure (g, v)
 
 def valueLeaf (f : Nat) (x : Nat) : M Nat := do
@@ -343,11 +354,14 @@ def addPoint (f : Nat) (t : Triple) : M Unit := do
         else
           gl ← ptDiv gl w
           fl ← exDiv fl w
-          recordTriple fn ⟨t.x, gl, fl⟩
+          recordTriple fn (Triple.mk3 t.x gl fl)
 
 def oracle (f : Nat) (x : Nat) : M (Nat × Nat) := do
   let fr ← getF f
   if fr.isLeaf then return ← oracleLeaf f x
+  -- zero / cancelling weights are removed before anything is classified
+  let fr := { fr with decomp := Dict.prune fr.decomp }
+  setF f fr
   let assoc ← isEvaluated f x
   if let some t := assoc then
     if fr.reuse then return (t.g, t.v)
@@ -373,7 +387,7 @@ def oracle (f : Nat) (x : Nat) : M (Nat × Nat) := do
         acc ← ptAdd acc wg
       pure acc
     else newLeafP
-  addPoint f ⟨x, g, v⟩
+  addPoint f (Triple.mk3 x g v)
   pure (g, v)
 
 def value (f : Nat) (x : Nat) : M Nat := do
@@ -391,13 +405,13 @@ def stationaryPoint (f : Nat) : M (Nat × Nat × Nat) := do
   let x ← newLeafP
   let g ← mkP []
   let v ← newLeafE
-  addPoint f ⟨x, g, v⟩
+  addPoint f (Triple.mk3 x g v)
   pure (x, g, v)
 
 def fixedPoint (f : Nat) : M (Nat × Nat) := do
   let x ← newLeafP
   let v ← newLeafE
-  addPoint f ⟨x, x, v⟩
+  addPoint f (Triple.mk3 x x v)
   pure (x, v)
 
 /-- `declare_function`: the quadratic class creates its stationary point in the constructor -/
@@ -409,7 +423,7 @@ def declareFunction (cls : ClassTag) (params : List Coef) (infParam reuse : Bool
     let x ← newLeafP
     let g ← mkP []
     let v ← newLeafE
-    addPoint h ⟨x, g, v⟩
+    addPoint h (Triple.mk3 x g v)
   pure h
 
 /-! ## block partitions -/
@@ -529,7 +543,7 @@ def runCond (f : Nat) (spec : Gen.CondSpec) : M Unit := do
       let mut row : List (Option Nat) := []
       let mut j := 0
       for tj in l2 do
-        if pairSkipped spec.symmetry i j then
+        if ti.uid == tj.uid || (decide (i > j) && spec.symmetry) then
           row := row ++ [Option.none]
         else
           let sj ← derefTriple tj
@@ -591,11 +605,12 @@ def glueOf (fr : FunRec) : List Gen.CondSpec :=
   | .SymmetricLinearOperator => Gen.SymmetricLinearOperator.glue
   | _ => []
 
-/-- `set_class_constraints`: resets `list_of_class_constraints` (only) and runs
+/-- `set_class_constraints`: resets `list_of_class_constraints` and `list_of_class_psd` and runs
 `add_class_constraints` of the class -/
 def setClassConstraints (f : Nat) : M Unit := do
   let fr ← getF f
-  setF f { fr with classCons := [] }
+  let fr := { fr with classCons := [], classPsd := [] }
+  setF f fr
   match fr.cls with
   | .adjointStub | .none => pure ()
   | .ConvexQGFunction | .RsiEbFunction =>
@@ -637,7 +652,7 @@ def setClassConstraints (f : Nat) : M Unit := do
     for ti in fr.pts do
       let mut j := 0
       for tj in fr.pts do
-        if ti == tj then
+        if ti.sameComponents tj then
           rowsPerBlock := rowsPerBlock.map (· ++ [Option.none])
         else
           let mut newRows : List (List (Option Nat)) := []
